@@ -10,15 +10,16 @@ Verdict: accept/reject must equal the table ("exactly when"), the returned messa
 """
 import json
 
-CFGS = {"w3": (200, 206, 3, 203, 203), "w1": (200, 206, 1, 203, 203), "w2": (200, 206, 2, 204, 205), "hdr": (200, 206, 1, 203, 203)}
+# (G0, Best, Wait, ForkAt, DepositAt, LeadZ) - must equal the constants of spec/EvmProof_<name>.cfg
+CFGS = {"w3": (200, 206, 3, 203, 203, 0), "w1": (200, 206, 1, 203, 203, 1), "w2": (200, 206, 2, 204, 205, 0), "hdr": (200, 206, 1, 203, 203, 1)}
 ROUTERS_QUICK = ["eth", "bsc", "heco"]
 ROUTERS_ALL = ["eth", "bsc", "bytom", "heco", "hsc", "pixie", "msc", "bor"]
 UNCOVERED = []
 
 
 def _table(ctx, b, router, name, rows, variants, stats):
-    g0, best, wait, forkat, depat = CFGS[name]
-    out = ctx.driver(b, ["proof-table", router, str(g0), str(best), str(wait), str(forkat), str(depat), str(variants)], input_obj=rows, timeout=3000)
+    g0, best, wait, forkat, depat, leadz = CFGS[name]
+    out = ctx.driver(b, ["proof-table", router, str(g0), str(best), str(wait), str(forkat), str(depat), str(variants), str(leadz)], input_obj=rows, timeout=3000)
     summ = [o for o in out if o.get("summary")]
     if not summ:
         ctx.fail("no summary from proof-table %s %s" % (router, name))
@@ -75,7 +76,8 @@ def run(ctx):
     ctx.cov["distinct_nontrivial"] = max(stats["classes"].values())
     return ctx.finish(rule="P-TABLE: one row per claim descriptor (height in {below genesis, around the confirmation boundary, head, head+1} x "
                       "{canonical state at that height, state of a stored non-canonical header, state of no header} x 7 account-proof kinds x "
-                      "7 storage-proof kinds x 2 messages), each concretized in %d random worlds; distinct_nontrivial = distinct "
+                      "12 storage-proof kinds (incl. slots whose value is the last 1/2/31 bytes of the hash, 33 bytes ending in it, empty) x 2 messages; "
+                      "Keccak(M) with and without a leading zero byte), each concretized in %d random worlds; distinct_nontrivial = distinct "
                       "(height class, world, kinds, message, verdict) classes other than the plain valid claim." % variants,
                       extra={"routers_covered": routers, "routers_uncovered": UNCOVERED + ([] if not q else ["bytom, hsc, pixie, msc, bor, quorum: thorough tier"])},
                       assumptions=["confirmation rule as coded: head - height >= BlocksToWait - 1 (BlocksToWait >= 1)",
